@@ -187,6 +187,19 @@ def search(rec, ctx):
 
     drive(st.randoms(use_true_random=False), g1, ctx.budget(3000, 60000), ctx.hseed("g1"))
 
+    def fstr(rnd):
+        from ..gen.fstr import FGen
+
+        src = FGen(rnd, nonascii=rnd.random() < 0.2).statement()
+        if rnd.random() < 0.3:
+            src = layout_variant(rnd, src)
+        check(rec, {"src": src, "stream": "g7-fstring"})
+        if rnd.random() < 0.3:
+            m, _ = mutate.mutate(rnd, src, xonsh=True, nasty=True)
+            check(rec, {"src": m, "stream": "g7-fstring-mutated"})
+
+    drive(st.randoms(use_true_random=False), fstr, ctx.budget(8000, 150000), ctx.hseed("fstr"))
+
     def mut(rnd):
         pool = seeds if rnd.random() < 0.4 or not corp else corp
         base = pool[rnd.randrange(len(pool))]
